@@ -40,6 +40,50 @@ def _boolean_like(v):
     return False
 
 
+def _pred_expr(stmts):
+    """The value of a helper whose body is ``return <expr>`` possibly preceded by ``if <t>: return <a>`` steps (with or
+    without ``else``), as ONE expression: ``if t: return True`` + rest = ``t or rest``; ``if t: return False`` + rest =
+    ``not t and rest``; otherwise ``(t and a) or (not t and rest)``.  None when the body has any other statement."""
+    if not stmts:
+        return None
+    s0 = stmts[0]
+    if isinstance(s0, ast.Return):
+        return s0.value if s0.value is not None and len(stmts) == 1 else None
+    if isinstance(s0, ast.If):
+        a = _pred_expr(s0.body)
+        rest = _pred_expr(s0.orelse) if s0.orelse else _pred_expr(stmts[1:])
+        if s0.orelse and len(stmts) > 1:
+            return None
+        if a is None or rest is None:
+            return None
+        if isinstance(a, ast.Constant) and a.value is True:
+            return ast.BoolOp(op=ast.Or(), values=[s0.test, rest])
+        if isinstance(a, ast.Constant) and a.value is False:
+            return ast.BoolOp(op=ast.And(), values=[ast.UnaryOp(op=ast.Not(), operand=s0.test), rest])
+        if isinstance(rest, ast.Constant) and rest.value is False:
+            return ast.BoolOp(op=ast.And(), values=[s0.test, a])
+        if isinstance(rest, ast.Constant) and rest.value is True:
+            return ast.BoolOp(op=ast.Or(), values=[ast.UnaryOp(op=ast.Not(), operand=s0.test), a])
+        return ast.BoolOp(op=ast.Or(), values=[ast.BoolOp(op=ast.And(), values=[s0.test, a]), ast.BoolOp(op=ast.And(), values=[ast.UnaryOp(op=ast.Not(), operand=s0.test), rest])])
+    return None
+
+
+def _value_expr(func_node, stmts):
+    """The value of a checked-computation helper: plain single assignments, ``if <t>: raise`` validations and one final
+    ``return <expr>`` - the returned expression with the helper's own single-assignment locals looked through (what
+    the caller gets whenever the helper returns at all).  None for any other body."""
+    if not stmts or not isinstance(stmts[-1], ast.Return) or stmts[-1].value is None:
+        return None
+    for b in stmts[:-1]:
+        if isinstance(b, ast.Assign) and len(b.targets) == 1 and isinstance(b.targets[0], ast.Name):
+            continue
+        if isinstance(b, ast.If) and not b.orelse and all(isinstance(x, ast.Raise) for x in b.body):
+            continue
+        return None
+    hdefs = Defs(func_node)
+    return _inline(stmts[-1].value, hdefs, depth=4)
+
+
 def _inline(test, defs: Defs, depth=6, _seen=None, module=None):
     """Copy of ``test`` with locals that have exactly one definition replaced by it, and - when ``module`` is
     given - calls of same-module private single-``return <expr>`` helpers replaced by that expression (formal
@@ -65,14 +109,15 @@ def _inline(test, defs: Defs, depth=6, _seen=None, module=None):
                 g = module.functions.get(n.func.id)
                 if g is not None and g.cls is None and g.parent is None:
                     body = [b for b in g.node.body if not (isinstance(b, ast.Expr) and isinstance(b.value, ast.Constant))]
-                    if len(body) == 1 and isinstance(body[0], ast.Return) and body[0].value is not None and len(n.args) == len(g.node.args.args) and not any(isinstance(a, ast.Starred) for a in n.args):
+                    value = _pred_expr(body) or _value_expr(g.node, body)
+                    if value is not None and len(n.args) == len(g.node.args.args) and not any(isinstance(a, ast.Starred) for a in n.args):
                         sub = dict(zip([a.arg for a in g.node.args.args], n.args))
 
                         class S(ast.NodeTransformer):
                             def visit_Name(self, m):
                                 return copy.deepcopy(sub[m.id]) if isinstance(m.ctx, ast.Load) and m.id in sub else m
 
-                        return S().visit(copy.deepcopy(body[0].value))
+                        return S().visit(copy.deepcopy(value))
             return n
 
     return T().visit(copy.deepcopy(test))
@@ -153,9 +198,36 @@ def _disjuncts(test):
     return [test]
 
 
+class Names(set):
+    """Local names of a function, plus the names of the module's private module-level functions (``opaque``)."""
+
+    opaque: frozenset = frozenset()
+
+
+def _is_opaque_call(n, local_names):
+    """``_private_helper(<locals / attributes of locals / constants>)`` of the same module that could not be inlined (it
+    has loops or several statements): for fingerprinting it is an opaque local computation - exactly what it would be
+    had the code computed the value with a flag-setting loop into a local, which is how such helpers come about."""
+    if not (isinstance(n, ast.Call) and isinstance(n.func, ast.Name) and n.func.id in getattr(local_names, "opaque", ()) and not n.keywords):
+        return False
+    for a in n.args:
+        base = a
+        while isinstance(base, (ast.Attribute, ast.Subscript)):
+            base = base.value
+        if isinstance(base, ast.Constant):
+            continue
+        if not (isinstance(base, ast.Name) and (base.id in local_names or base.id == "self")):
+            return False
+    return True
+
+
 def _features(node, local_names) -> Counter:
     c = Counter()
-    for n in ast.walk(node):
+
+    def walk(n):
+        if _is_opaque_call(n, local_names):
+            c["Local"] += 1
+            return
         t = type(n).__name__
         if isinstance(n, ast.Name):
             if n.id in local_names:
@@ -167,11 +239,15 @@ def _features(node, local_names) -> Counter:
         elif isinstance(n, ast.Constant):
             c[f"Const:{n.value!r}"] += 1
         elif isinstance(n, (ast.Load, ast.Store, ast.Del, ast.expr_context)):
-            continue
+            pass
         elif isinstance(n, ast.keyword):
             c[f"kw:{n.arg}"] += 1
         else:
             c[t] += 1
+        for ch in ast.iter_child_nodes(n):
+            walk(ch)
+
+    walk(node)
     return c
 
 
@@ -262,8 +338,9 @@ def guard_instances(f: FuncInfo, kinds=("raise", "return None", "return", "conti
     under the call site's condition plus their own (a refusal moved into a helper is still f's refusal)."""
     cfg = CFG(f.node)
     defs = Defs(f.node)
-    local_names = set(defs.defs) | set(defs.params)
+    local_names = Names(set(defs.defs) | set(defs.params))
     module = f.module
+    local_names.opaque = frozenset(n for n, g in module.functions.items() if n.startswith("_") and g.cls is None and g.parent is None)
     out = []
     for s in cfg.stmts():
         if isinstance(s, (ast.Raise, ast.Return, ast.Continue)):
@@ -314,7 +391,8 @@ def guard_instances(f: FuncInfo, kinds=("raise", "return None", "return", "conti
                     return _inline(S().visit(node), defs, module=module)
 
                 gcfg, gdefs = CFG(g.node), Defs(g.node)
-                g_locals = local_names | set(gdefs.defs) | set(gdefs.params)
+                g_locals = Names(local_names | set(gdefs.defs) | set(gdefs.params))
+                g_locals.opaque = local_names.opaque
                 for hs in gcfg.stmts():
                     if not isinstance(hs, ast.Raise):
                         continue
